@@ -71,6 +71,13 @@ def _tmat(k, seed, salt):
     return np.eye(k) + 0.3 * rng.normal(size=(k, k))
 
 
+def _cmat(k, seed, salt):
+    """A well conditioned COMPLEX k x k mixing: rhf/uhf conjugate their orbitals (mo.T.conj()), so complex
+    coefficients are admissible for them and make a lost conj() visible."""
+    rng = np.random.default_rng(1900 + seed * 7 + salt)
+    return np.eye(k) + 0.3 * rng.normal(size=(k, k)) + 0.4j * rng.normal(size=(k, k))
+
+
 def _sym_units_ci2(no, nv):
     """units of the symmetric restricted ci2: c[i,a,j,b] = c[j,b,i,a]"""
     pairs = [(i, a) for i in range(no) for a in range(nv)]
@@ -124,7 +131,7 @@ def build(kind, n, na, nb, seed=0, variant="", n_batch=1, eps=None, full_basis=T
 
     if kind == "rhf":
         Q = al.frame(n, seed, 1)
-        T = _tmat(na, seed, 1) if variant == "nonorth" else np.eye(na)
+        T = _tmat(na, seed, 1) if variant == "nonorth" else _cmat(na, seed, 1) if variant == "complex" else np.eye(na)
         mo = Q[:, :na] @ T
         trial = wf.rhf(n, (na, nb), n_batch=n_batch)
         wd = {"mo_coeff": jnp.asarray(mo)}
@@ -133,16 +140,16 @@ def build(kind, n, na, nb, seed=0, variant="", n_batch=1, eps=None, full_basis=T
 
     if kind in ("uhf", "uhf_cpmc"):
         Qa = al.frame(n, seed, 2)
-        Qb = Qa if variant in ("same", "nonorth_same") else al.frame(n, seed, 3)
-        Ta = _tmat(na, seed, 2) if variant.startswith("nonorth") else np.eye(na)
-        Tb = _tmat(nb, seed, 3) if variant.startswith("nonorth") else np.eye(nb)
+        Qb = Qa if variant in ("same", "nonorth_same", "complex_same") else al.frame(n, seed, 3)
+        Ta = _tmat(na, seed, 2) if variant.startswith("nonorth") else _cmat(na, seed, 2) if variant.startswith("complex") else np.eye(na)
+        Tb = _tmat(nb, seed, 3) if variant.startswith("nonorth") else _cmat(nb, seed, 3) if variant.startswith("complex") else np.eye(nb)
         moa, mob = Qa[:, :na] @ Ta, Qb[:, :nb] @ Tb
         cls = wf.uhf if kind == "uhf" else wf.uhf_cpmc
         trial = cls(n, (na, nb), n_batch=n_batch)
         wd = {"mo_coeff": [jnp.asarray(moa), jnp.asarray(mob)]}
         ket = fock.ket_uhf(n, na, nb, moa, mob)
         return TrialCase(kind, n, na, nb, trial, Qa, Qb, [ParamSet("mo", wd, ket)],
-                         variant in ("same", "nonorth_same"), True, variant)
+                         variant in ("same", "nonorth_same", "complex_same"), True, variant)
 
     if kind in ("ghf", "ghf_cpmc", "GCISD"):
         Qa, Qb = al.frame(n, seed, 4), al.frame(n, seed, 5)
